@@ -13,7 +13,7 @@ use subject::*;
 
 const PROP: &str = "C13";
 
-const VALS: [f64; 6] = [0.0, 1.5, 1.0 / 3.0, 1e-40, 1e40, -2.25];
+const VALS: [f64; 7] = [0.0, 1.5, 1.0 / 3.0, 1e-40, 1e40, -2.25, -0.0];
 
 fn values<F: Flt>(l: &Layout, max: usize) -> Vec<Parts<F>> {
     // every presence pattern x a sweep of the value alphabet through the slots
@@ -36,7 +36,9 @@ fn alpha_eq<A: Flt, B: Flt>(la: &Layout, a: &Parts<A>, lb: &Layout, b: &Parts<B>
     (0..la.nslots()).find(|&i| {
         let x = cast(a.alpha(la, i).to64());
         let y = b.alpha(lb, i).to64();
-        !(x == y || (x.is_nan() && y.is_nan()))
+        // numerically equal; a zero that is present on both sides must also keep its sign
+        let sign_lost = x == 0.0 && y == 0.0 && a.slot_present(la, i) && b.slot_present(lb, i) && x.is_sign_negative() != y.is_sign_negative();
+        !(x == y || (x.is_nan() && y.is_nan())) || sign_lost
     })
 }
 
@@ -225,6 +227,11 @@ macro_rules! all_widths {
 fn run_all(st: &mut Stats, max_dim: usize, max_vals: usize) {
     all_widths!(st, max_vals, Dual, Dims::NONE);
     all_widths!(st, max_vals, Dual2, Dims::NONE);
+    // nested scalar types (the conversions recurse through the inner type)
+    conv!(st, Dual<Dual32, f32>, f32, Dual<Dual64, f64>, f64, Dims::NONE, max_vals);
+    conv!(st, Dual<Dual64, f64>, f64, Dual<Dual32, f32>, f32, Dims::NONE, max_vals);
+    conv!(st, Dual2<Dual32, f32>, f32, Dual2<Dual64, f64>, f64, Dims::NONE, max_vals);
+    conv!(st, Dual<Dual2_64, f64>, f64, Dual<Dual2_32, f32>, f32, Dims::NONE, max_vals);
     for n in 0..=max_dim {
         all_widths!(st, max_vals, DualVec, Dims::n(n), Dyn);
         all_widths!(st, max_vals, Dual2Vec, Dims::n(n), Dyn);
